@@ -9,14 +9,30 @@ DESIGN_REF = "DESIGN.md section 7 (C15)"
 RULE = (
     "the C08 declaration-race workload plus requests built to fail late, injected SQL statement "
     "errors ('database or disk is full') at a random statement of a request handler, and client "
-    "deaths right after the n-th complete request of a sub-plan was sent. Distinct = distinct "
+    "deaths right after the n-th complete request of a sub-plan was sent (in a quarter of the "
+    "scenarios: right after an amend() whose handler waits for a slow hash job). Distinct = distinct "
     "declaration lists + fault plan; non-trivial = at least one request was rejected."
 )
 ASSUMPTIONS = ["amend_step legitimately uses two transactions when it has to confirm static-tree inputs"]
 
 
 def gen_scenario(seed, tier="quick", opts=None):
+    import random
+
+    from sim.chooser import derive_seed
+
     sc = _decl.gen_decl_scenario(seed, tier, faults=("client_death", "sql"))
+    rng = random.Random(derive_seed(seed, "c15"))
+    if rng.random() < 0.25:
+        # A sub-plan declares a static tree, amends a file of it as input (the handler then
+        # waits for the file's hash job) and dies right after sending that request, while
+        # hashing is slow: the handler outlives its client by seconds.
+        k = rng.randrange(len(sc["plans"]))
+        tree, member = rng.choice([("t/", "t/x.txt"), ("u/", "u/a.txt"), ("t/sub/", "t/sub/z.txt")])
+        sc["plans"][k][:0] = [["ignore_errors", [["static", tree]]], ["ignore_errors", [["amend", {"inp": [member]}]]]]
+        sc["faults"] = [f for f in sc["faults"] if f["kind"] != "client_death"]
+        sc["faults"].append({"kind": "client_death", "plan": k, "after_sends": 2})
+        sc["schedule"]["profile"] = {"hash.slow": [500]}
     sc["check"] = PROPERTY
     return sc
 
